@@ -109,12 +109,15 @@ class ParseTimeout(argparse.Action):
 
     @staticmethod
     def unparse(value: float) -> str:
-        # less than 1s, render as ms
-        if value < 1:
-            return f"{int(value * 1000)}ms"
+        # less than 1s, render as ms; otherwise, render as s
+        # (only if that is exact, so that parse(unparse(value)) == value)
+        ms = round(value * 1000)
+        candidates = [f"{ms}ms"] if value < 1 else [f"{int(value)}s", f"{ms}ms"]
+        for candidate in candidates:
+            if ParseTimeout.parse(candidate) == value:
+                return candidate
 
-        # otherwise, render as s
-        return f"{int(value)}s"
+        return f"{value!r}s"
 
 
 class ParseCSVTraceEvent(argparse.Action):
